@@ -43,16 +43,18 @@ Definition mk_symbol (k : str) (e : bool) : outcome sym :=
 (* ---- build_symbols_from_unknown_tokens ---- *)
 Definition tok_blank (t : ltok) : bool := blank O (tstring t).
 
+(* "while unmatched and not unmatched[-1].string.strip(): trailing_spaces.append(unmatched.pop())" *)
+Fixpoint split_trailing (l : list ltok) (acc : list ltok) : list ltok * list ltok :=
+  match l with
+  | t :: l' => if tok_blank t then split_trailing l' (acc ++ [t]) else (acc, l)
+  | [] => (acc, [])
+  end.
+
 (* build_token_with_symbol(): [unm] is the deque, most recent first *)
 Definition flush_unknown (unm : list ltok) : outcome (list ltok) :=
   match unm with
   | [] => Ok []
   | _ =>
-    let fix split_trailing (l : list ltok) (acc : list ltok) : list ltok * list ltok :=
-        match l with
-        | t :: l' => if tok_blank t then split_trailing l' (acc ++ [t]) else (acc, l)
-        | [] => (acc, [])
-        end in
     let '(trailing, core_rev) := split_trailing unm [] in
     match core_rev with
     | [] => Ok trailing
